@@ -45,8 +45,8 @@ Alphabet ==
     [] Family = "T8" -> \* control characters through escapes, in strings and names: \ d c space " a newline
          {92, 100, 99, 32, 34, 97, 10}
     [] Family = "T9" -> \* single characters separated by comments (run with SkipComments = TRUE: the token list has
-                        \* adjacent tokens that a serializer must keep apart): a e E u 1 - + . % # @ ( ) / * | = ~ < ! > ? \
-         {97, 101, 69, 117, 49, 45, 43, 46, 37, 35, 64, 40, 41, 47, 42, 124, 61, 126, 60, 33, 62, 63, 92}
+                        \* adjacent tokens that a serializer must keep apart): a e E u U f 1 - + . % # @ ( ) / * | = ~ < ! > ? \
+         {97, 101, 69, 117, 85, 102, 49, 45, 43, 46, 37, 35, 64, 40, 41, 47, 42, 124, 61, 126, 60, 33, 62, 63, 92}
     [] Family = "T10" -> \* units that look like exponents, after the digit 1: \ 6 5 4 space 3 e E -
          {92, 54, 53, 52, 32, 51, 101, 69, 45}
 Prefixes ==
